@@ -1510,10 +1510,12 @@ void SPxMainSM<R>::AggregationPS::execute(VectorBase<R>& x, VectorBase<R>& y, Ve
    bool atOldLower = (m_oldlower > R(-infinity)) && EQ(x[active_idx], m_oldlower, this->feastol());
    bool atOldUpper = (m_oldupper < R(infinity)) && EQ(x[active_idx], m_oldupper, this->feastol());
    bool oldFixed = atOldLower && atOldUpper;
-   bool staysLower = (kStat == SPxSolverBase<R>::ON_LOWER || kStat == SPxSolverBase<R>::FIXED) && atOldLower
-                     && (oldFixed || r[active_idx] >= -this->feastol());
-   bool staysUpper = (kStat == SPxSolverBase<R>::ON_UPPER || kStat == SPxSolverBase<R>::FIXED) && !staysLower
-                     && atOldUpper && r[active_idx] <= this->feastol();
+   bool kOnBound = (kStat == SPxSolverBase<R>::ON_LOWER || kStat == SPxSolverBase<R>::ON_UPPER
+                    || kStat == SPxSolverBase<R>::FIXED);
+   // (if the tightened bounds are equal only within feastol, the label ON_LOWER / ON_UPPER says nothing about
+   // which of the old bounds x_k sits on, so decide by position and sign)
+   bool staysLower = kOnBound && atOldLower && (oldFixed || r[active_idx] >= -this->feastol());
+   bool staysUpper = kOnBound && !staysLower && atOldUpper && r[active_idx] <= this->feastol();
 
    if(staysLower || staysUpper)
    {
@@ -1522,8 +1524,7 @@ void SPxMainSM<R>::AggregationPS::execute(VectorBase<R>& x, VectorBase<R>& y, Ve
 
       cStatus[m_j] = SPxSolverBase<R>::BASIC;
    }
-   else if(kStat == SPxSolverBase<R>::ON_UPPER || kStat == SPxSolverBase<R>::ON_LOWER
-           || kStat == SPxSolverBase<R>::FIXED)
+   else if(kOnBound)
    {
       // x_k becomes basic and x_j nonbasic: the dual of row i has to make the reduced cost of x_k vanish instead
       // of the one of x_j (r'_k = r_k + aggr_coef * r_j with aggr_coef = -aik / aij)
